@@ -1,21 +1,27 @@
-"""C11 — graph construction API (flow.Worker / Future / Segment) vs lean/ForML/Model/Graph.lean.
+"""C11 — graph construction API (flow.Worker / Future / Segment / Trunk / Composition) vs lean/ForML/Model/Graph.lean.
 
-A *case* is a sequence of construction calls over a universe of <= 6 nodes.  Every call is executed on the
+A *case* is a sequence of construction calls over a small universe of nodes.  Every call is executed on the
 real forml objects; after every call the harness dumps every node's output subscriptions, every future's
 registrations and every worker's input/trained/derived/group, and the exception class/message.  The same
 op list goes to the Lean model (`step`), whose state dump is compared textually, call by call.
 
 The oracle does not use the model: it evaluates the five invariants of the statement, atomicity of failing
-calls, the error class, the cycle clause and the placeholder clause on the dumped real graph, and (for the
-transparency stream) compares the worker-to-worker connections with the path closure of the requested wiring.
+calls, the error class, the cycle clause, the placeholder clauses (segment and composition) and the disjointness of
+a copy on the dumped real graph, and (for the transparency stream) compares the worker-to-worker connections with
+the path closure of the requested wiring.
 
-Ops (JSON lists): ['mkworker', stateful, szin, szout] ['mkfuture', szin, szout] ['fork', n]
+Ops (JSON lists; a *seg* is [h, t|None] = flow.Segment(h, t)):
+  ['mkworker', stateful, szin, szout] ['mkfuture', szin, szout] ['fork', n]
   ['sub', s, j, p, i]  = s[j].subscribe(p[i])      ['train', n, tp, ti, lp, li] = n.train(tp[ti], lp[li])
   ['pub', p, i, s, k]  = p[i].publish(s, Apply(k))  (the publishing side of the port API: a Future subscriber
                          registers the publisher under an Apply-typed index)
   ['segment', h, t|None] = flow.Segment(h, t)      ['validate', h, t|None] = Segment(h, t).accept(Validator())
-  oracle-only (not modelled): ['copy', h, t|None] = Segment(h, t).copy()   ['extend', h, t|None, r] = Segment(h, t).extend(r)
-    ['compose', ah, at|None, th, tt|None] = flow.Composition(op) with op.compose() = Trunk(Segment(ah, at), Segment(th, tt))
+  ['copy', h, t|None] = Segment(h, t).copy()       (new nodes are numbered in the order of their originals)
+  ['extend', h, t|None, seg|None, x|None] = Segment(h, t).extend(Segment(*seg), x)
+  ['trunk', seg|None, seg|None, seg|None] = flow.Trunk(apply, train, label)   (a missing mode becomes a new Future)
+  ['textend', [seg, seg, seg], seg|None, seg|None, seg|None] = flow.Trunk(*base).extend(apply, train, label)
+  ['compose', [[seg, seg, seg], ...]] = flow.Composition(op1, op2, ...) where op_k.compose() returns flow.Trunk(*k-th)
+  legacy spellings (witnesses of earlier rounds, real code only): ['extend', h, t, r]  ['compose', ah, at, th, tt]
 """
 from __future__ import annotations
 
@@ -30,7 +36,8 @@ import typing
 from core import framework as fw
 from core import sexp
 
-MAXN = 6
+MAXN = 6  # nodes created by the plain creation calls (copies / default trunk futures may take it to MAXTOTAL)
+MAXTOTAL = 14
 KNOWN_SIGS: set = set()  # signatures of the listed findings (set by the check before any worker is forked)
 T, L = 0, 1  # port codes: Train 0, Label 1, Apply(i) i+2
 
@@ -42,7 +49,78 @@ MESSAGES = [
     ('Ambiguous tail', 'ambiguous'), ('Disconnected tail', 'disconnected'), ('Simple head required', 'simple-head'),
     ('Simple tail required', 'simple-tail'), ('Future nodes in segment', 'futures'),
 ]
-KIND_CLASS = {'shape': 'ValueError', 'recursion': 'RecursionError'}  # everything else: TopologyError
+KIND_CLASS = {'shape': 'ValueError', 'recursion': 'RecursionError', 'unpack': 'ValueError', 'no-path': 'KeyError'}
+TRACING = ('cyclic', 'ambiguous', 'disconnected', 'simple-head', 'simple-tail', 'class:Cyclic')  # refusals of a tracing
+
+
+# =============================================================================================
+# op plumbing
+# =============================================================================================
+class Drop(Exception):
+    """raised by a renumbering function for a node that no longer exists"""
+
+
+def norm(op):
+    """legacy spellings -> current ones"""
+    if op[0] == 'extend' and len(op) == 4:
+        return ['extend', op[1], op[2], [op[3], None], None]
+    return op
+
+
+def walk(op, f):
+    """The op with every node index x replaced by f(x)."""
+    k = op[0]
+
+    def opt(x):
+        return None if x is None else f(x)
+
+    def seg(s):
+        return None if s is None else [f(s[0]), opt(s[1])]
+
+    if k in ('mkworker', 'mkfuture'):
+        return list(op)
+    if k == 'fork':
+        return ['fork', f(op[1])]
+    if k in ('sub', 'pub'):
+        return [k, f(op[1]), op[2], f(op[3]), op[4]]
+    if k == 'train':
+        return ['train', f(op[1]), f(op[2]), op[3], f(op[4]), op[5]]
+    if k in ('segment', 'validate', 'copy'):
+        return [k, f(op[1]), opt(op[2])]
+    if k == 'extend':
+        op = norm(op)
+        return ['extend', f(op[1]), opt(op[2]), seg(op[3]), opt(op[4])]
+    if k == 'trunk':
+        return ['trunk', seg(op[1]), seg(op[2]), seg(op[3])]
+    if k == 'textend':
+        return ['textend', [seg(s) for s in op[1]], seg(op[2]), seg(op[3]), seg(op[4])]
+    if k == 'compose':
+        if len(op) == 5:
+            return ['compose', f(op[1]), opt(op[2]), f(op[3]), opt(op[4])]
+        return ['compose', [[seg(s) for s in t] for t in op[1]]]
+    raise fw.MachineryError(f'unknown op {op}')
+
+
+def refs(op) -> list:
+    out = []
+
+    def f(x):
+        out.append(x)
+        return x
+
+    walk(op, f)
+    return out
+
+
+def op_sexp(op):
+    """the line-protocol form of an op"""
+    if op[0] == 'compose':
+        return ['compose'] + list(op[1])
+    return op
+
+
+def modelled(op) -> bool:
+    return not (op[0] == 'compose' and len(op) == 5)
 
 
 # =============================================================================================
@@ -57,6 +135,8 @@ def _env():
         if repo not in sys.path:
             sys.path.insert(0, repo)
         import logging
+        import warnings
+        warnings.simplefilter('ignore')
         logging.disable(logging.CRITICAL)
         sys.unraisablehook = lambda *a: None  # Subscription.__del__ of a node unknown to _PORTS raises AttributeError
         from forml import flow
@@ -103,6 +183,7 @@ class Real:
         self.ports = self.env['port'].Subscription._PORTS  # pylint: disable=protected-access
         self.saved = dict(self.ports)
         self.ports.clear()
+        self.approx = False  # the numbering of copied nodes could not be taken from Traversal.copy
 
     def close(self):
         # break the reference cycles (worker <-> group, node -> subscription -> node) so that every Subscription
@@ -125,21 +206,93 @@ class Real:
         return -1
 
     def dump(self):
+        """[outs, regs, workers] of the nodes the harness holds (what a refused copy left behind in the worker
+        groups is counted by `orphans`, not dumped)."""
         env = self.env
         fut = env['atomic'].Future
         outs = [[[[self.idx(s.node), _pcode(s.port, env)] for s in p] for p in n.output] for n in self.nodes]
         regs = [[i, int(index), self.idx(p._node), p._index]  # pylint: disable=protected-access
                 for i, n in enumerate(self.nodes) if isinstance(n, fut)
                 for p, index in n._input.items()]  # pylint: disable=protected-access
-        workers = [[i, bool(n.trained), bool(n.derived), sorted(self.idx(m) for m in n.group),
+        workers = [[i, bool(n.trained), bool(n.derived), sorted(j for j in (self.idx(m) for m in n.group) if j >= 0),
                     sorted(_pcode(p, env) for p in n.input)]
                    for i, n in enumerate(self.nodes) if not isinstance(n, fut)]
         return [outs, regs, workers]
 
+    def orphans(self) -> int:
+        """members of the worker groups that no call ever handed out"""
+        fut = self.env['atomic'].Future
+        seen, count = set(), 0
+        for n in self.nodes:
+            if isinstance(n, fut) or id(n._group) in seen:  # pylint: disable=protected-access
+                continue
+            seen.add(id(n._group))  # pylint: disable=protected-access
+            count += sum(1 for m in n.group if self.idx(m) < 0)
+        return count
+
+    def future_in_ports(self) -> bool:
+        """does a Future have an entry in the `_PORTS` registry?  (It compares equal to the worker it stands for, so
+        its entry captures that worker's ports while they look alike: finding C11-F5.  The model keys the registry by
+        identity, a sequence is compared up to the call that makes such an entry.)"""
+        fut = self.env['atomic'].Future
+        return any(isinstance(k, fut) for k in list(self.ports))
+
+    # ---- helpers -------------------------------------------------------------------------------
+    def seg(self, s):
+        flow = self.env['flow']
+        return flow.Segment(self.nodes[s[0]], None if s[1] is None else self.nodes[s[1]])
+
+    def pair(self, segment):
+        return [self.idx(segment._head), self.idx(segment._tail)]  # pylint: disable=protected-access
+
+    def adopt(self, *found):
+        for n in found:
+            if self.idx(n) < 0:
+                self.nodes.append(n)
+
+    def _copy(self, segment):  # pylint: disable=too-many-locals
+        """Segment.copy(); the copies are numbered in the order of their originals (taken from the mapping returned
+        by Traversal.copy; should that function no longer be used: breadth first from the new head)."""
+        span = self.env['span']
+        orig = span.Traversal.copy
+        box = []
+
+        def spy(trav, tail):
+            mapping = orig(trav, tail)
+            box.append(mapping)
+            return mapping
+
+        span.Traversal.copy = spy
+        try:
+            new = segment.copy()
+        finally:
+            span.Traversal.copy = orig
+        if box and isinstance(box[-1], typing.Mapping):
+            for _, c in sorted(((self.idx(o), c) for o, c in box[-1].items()), key=lambda t: t[0]):
+                self.adopt(c)
+        self._adopt_reachable(new._head)  # pylint: disable=protected-access
+        return new
+
+    def _adopt_reachable(self, head):
+        todo = [head]
+        while todo:
+            n = todo.pop(0)
+            if self.idx(n) < 0:
+                self.approx = True
+                self.nodes.append(n)
+            for p in n.output:
+                for s in p:
+                    if self.idx(s.node) < 0 and all(s.node is not t for t in todo):
+                        todo.append(s.node)
+
     def call(self, op):
-        """Execute one op; returns the result record ['ok'] | ['node', i] | ['err', kind] and the exception class."""
+        """Execute one op; returns the result record ['ok'] | ['node', i] | ['segs', [h, t], ...] | ['err', kind]
+        and the exception class name."""
         env = self.env
         flow, nodes = env['flow'], self.nodes
+        op = norm(op)
+        if any(not isinstance(x, int) or x < 0 or x >= len(nodes) for x in refs(op)):
+            return ['err', 'no-node'], 'NoNode'
         try:
             k = op[0]
             if k == 'mkworker':
@@ -157,36 +310,48 @@ class Real:
             if k == 'pub':
                 nodes[op[1]][op[2]].publish(nodes[op[3]], env['port'].Apply(op[4]))
                 return ['ok'], None
-            if k == 'compose':
-                ah, at, th, tt = op[1:5]
-
-                class Source(flow.Operator):
-                    def compose(self, scope):  # pylint: disable=unused-argument
-                        return flow.Trunk(flow.Segment(nodes[ah], None if at is None else nodes[at]),
-                                          flow.Segment(nodes[th], None if tt is None else nodes[tt]))
-
-                comp = env['assembly'].Composition(Source())
-                return ['comp', [self.idx(comp.apply._head), self.idx(comp.apply._tail)],  # pylint: disable=protected-access
-                        [self.idx(comp.train._head), self.idx(comp.train._tail)]], None  # pylint: disable=protected-access
             if k == 'train':
                 nodes[op[1]].train(nodes[op[2]][op[3]], nodes[op[4]][op[5]])
                 return ['ok'], None
             if k in ('segment', 'validate'):
-                seg = flow.Segment(nodes[op[1]], None if op[2] is None else nodes[op[2]])
+                seg = self.seg(op[1:3])
                 if k == 'validate':
                     seg.accept(env['clean'].Validator())
                 return ['node', self.idx(seg._tail)], None  # pylint: disable=protected-access
             if k == 'copy':
-                seg = flow.Segment(nodes[op[1]], None if op[2] is None else nodes[op[2]])
-                copies = env['span'].Traversal(seg._head).copy(seg._tail)  # pylint: disable=protected-access
-                for c in copies.values():
-                    if self.idx(c) < 0:
-                        nodes.append(c)
-                return ['ok'], None
+                new = self._copy(self.seg(op[1:3]))
+                return ['segs', self.pair(new)], None
             if k == 'extend':
-                seg = flow.Segment(nodes[op[1]], None if op[2] is None else nodes[op[2]])
-                new = seg.extend(nodes[op[3]])
+                seg = self.seg(op[1:3])
+                right = None if op[3] is None else self.seg(op[3]) if op[3][1] is not None else nodes[op[3][0]]
+                new = seg.extend(right, None if op[4] is None else nodes[op[4]])
                 return ['node', self.idx(new._tail)], None  # pylint: disable=protected-access
+            if k == 'trunk':
+                segs = [None if s is None else self.seg(s) for s in op[1:4]]
+                trunk = flow.Trunk(*segs)
+                self.adopt(*(s._head for s in trunk))  # pylint: disable=protected-access
+                return ['segs'] + [self.pair(s) for s in trunk], None
+            if k == 'textend':
+                base = flow.Trunk(*[self.seg(s) for s in op[1]])
+                ext = [None if s is None else self.seg(s) for s in op[2:5]]
+                trunk = base.extend(*ext)
+                return ['segs'] + [self.pair(s) for s in trunk], None
+            if k == 'compose':
+                real = self
+                if len(op) == 5:
+                    specs = [[[op[1], op[2]], [op[3], op[4]], None]]
+                else:
+                    specs = op[1]
+
+                def operator(spec):
+                    class Source(flow.Operator):
+                        def compose(self, scope):  # pylint: disable=unused-argument
+                            return flow.Trunk(*[None if s is None else real.seg(s) for s in spec])
+
+                    return Source()
+
+                comp = env['assembly'].Composition(*[operator(s) for s in specs])
+                return ['segs', self.pair(comp.apply), self.pair(comp.train)], None
             raise fw.MachineryError(f'unknown op {op}')
         except fw.MachineryError:
             raise
@@ -243,6 +408,12 @@ def invariants(dump) -> list[tuple[str, str]]:
         if any(c >= 2 for c in codes) and any(c < 2 for c in codes):
             bad.append(('I3-apply-and-train', f'worker {w[0]} is subscribed on ports {sorted(codes)}'))
             break
+    # (I3 rests on it) Worker.input lists exactly the ports that have a publisher
+    for w in workers.values():
+        have = {c for _, _, s, c in edges if s == w[0]}
+        if have != set(w[4]):
+            bad.append(('input-registry', f'worker {w[0]}: Worker.input = {sorted(w[4])}, ports with a publisher = {sorted(have)}'))
+            break
     # I4 at most one trained member per group (by topology and by Worker.trained)
     trained = {w[0] for w in workers.values() if w[1]} | {s for _, _, s, c in edges if c < 2}
     for w in workers.values():
@@ -290,50 +461,96 @@ def reachable(dump, head) -> set:
     return seen
 
 
-def judge(op, res, cls, before, after) -> list[tuple[str, str]]:
-    """All oracle clauses for one call. `before`/`after` are dumps; returns [(signature, what)]."""
+def _aliased(dump, h, tl) -> bool:
+    return tl >= 0 and len(dump[0][h]) == len(dump[0][tl]) > 0 and dump[0][h] == dump[0][tl]
+
+
+def judge(op, res, cls, before, after, orph=(0, 0), fports=False) -> list[tuple[str, str]]:
+    """All oracle clauses for one call. `before`/`after` are dumps, `orph` the orphan counts before and after, `fports`
+    whether a Future has an entry in the `_PORTS` registry; returns [(signature, what)]."""
     out = []
-    route = op[0] if op[0] in ('copy', 'extend') else 'future' if _touches_future(op, before) else 'direct'
-    if res[0] == 'err' and op[0] == 'copy':
-        return out  # a failing copy leaves forks behind in the worker groups; only successful copies are judged
+    op = norm(op)
+    kind = op[0]
+    if res[0] == 'err' and res[1] == 'no-node':
+        return out  # not a forml call
+    route = kind if kind in ('copy', 'extend', 'trunk', 'textend', 'compose') else \
+        'future' if _touches_future(op, before) else 'direct'
     if res[0] == 'err':
         if cls not in ('TopologyError', 'ValueError', 'AssertionError'):  # AssertionError: port index out of shape
-            out.append((f'error-class-{cls}', f'{op} raised {cls} instead of the topology error'))
-        # Segment.extend = subscribe, then trace: when the tracing refuses the result (cycle, ambiguous or
-        # non-simple tail) the subscription that did not break any invariant legitimately stays
-        traced = op[0] == 'extend' and res[1] in ('cyclic', 'ambiguous', 'disconnected', 'simple-head', 'simple-tail')
-        if before != after and not traced:
-            stage = ''
-            if op[0] == 'train' and route == 'direct':
-                stage = '-label-stage'
-            sig = 'not-atomic-future-route' if route == 'future' else f'not-atomic-{op[0]}-direct{stage}'
-            out.append((sig, f'{op} raised {res[1]} but changed the graph'))
+            # a segment (Future head, the worker registered on it as tail) should not exist in the first place
+            # (finding C11-F2); what a call makes of such a segment has the same root cause
+            f2 = any(not _is_worker(before, h) and t is not None and t != h and _aliased(before, h, t) for h, t in _segs(op))
+            out.append(('placeholder-accepted-head-aliases-tail' if f2 else f'error-class-{cls}',
+                        f'{op} raised {cls} instead of the topology error'))
+        if before != after:
+            # Segment.extend = subscribe, then trace: when the tracing refuses the result (cycle, ambiguous or
+            # non-simple tail) the subscription that did not break any invariant legitimately stays; likewise the
+            # wiring a refused composition made before its validation
+            legit = kind in ('extend', 'textend', 'compose') and (res[1] in TRACING or (kind == 'compose' and res[1] == 'futures'))
+            if not legit:
+                stage = ''
+                if kind == 'train' and route == 'direct':
+                    stage = '-label-stage'
+                sig = 'not-atomic-future-route' if route == 'future' else f'not-atomic-{kind}-direct{stage}' \
+                    if route == 'direct' else f'not-atomic-{kind}'
+                out.append((sig, f'{op} raised {res[1]} but changed the graph'))
+        elif orph[1] > orph[0]:
+            out.append((f'not-atomic-{kind}-orphan-forks',
+                        f'{op} raised {res[1]} and left {orph[1] - orph[0]} fork(s) behind in the worker groups'))
+    elif orph[1] > orph[0]:
+        out.append((f'{kind}-orphan-forks', f'{op} left {orph[1] - orph[0]} unreferenced fork(s) in the worker groups'))
     for sig, what in invariants(after):
         if not any(s == sig for s, _ in invariants(before)):
             # (the shared-placeholder-port root cause is the same whatever call delivers the subscriber)
             full = sig if sig == 'I1-two-publishers-shared-future-port' else f'{sig}-{route}'
+            if fports and sig in ('I1-two-publishers', 'I3-apply-and-train', 'input-registry'):
+                # the exclusivity checks read `_PORTS[subscriber]`; with a Future among its keys that look-up may land
+                # on the Future's entry (Node.__eq__ aliasing): one root cause
+                full = 'ports-registry-future-entry'
             out.append((full, f'after {op} ({res}): {what}'))
-    if op[0] == 'compose' and res[0] == 'comp':
+    if kind == 'compose' and res[0] == 'segs':
         # "a composition still containing placeholders is refused": each path on its own
         for path, (h, tl) in (('apply', res[1]), ('train', res[2])):
             if h >= 0 and not _is_worker(after, h) and tl != h:
-                aliased = tl >= 0 and len(after[0][h]) == len(after[0][tl]) > 0 and after[0][h] == after[0][tl]
-                sig = 'placeholder-accepted-head-aliases-tail' if aliased else f'composition-placeholder-accepted-{path}'
+                sig = 'placeholder-accepted-head-aliases-tail' if _aliased(after, h, tl) else f'composition-placeholder-accepted-{path}'
                 out.append((sig, f'{op} accepted a composition whose {path} segment is headed by a Future'))
-    if op[0] in ('segment', 'validate'):
+    if kind == 'copy' and res[0] == 'segs':
+        # the copy is a region of its own: nothing of the existing graph changes but the worker groups, no
+        # subscription links an old node with a new one
+        n0 = len(before[0])
+        if after[0][:n0] != before[0] or after[1][:len(before[1])] != before[1] or \
+                [[w[0], w[1], w[4]] for w in after[2] if w[0] < n0] != [[w[0], w[1], w[4]] for w in before[2]]:
+            out.append(('copy-touches-original', f'{op} changed the subscriptions of the copied graph'))
+        if any(s < n0 for n in range(n0, len(after[0])) for p in after[0][n] for s, _ in p) or any(r[2] < n0 <= r[0] or r[0] < n0 <= r[2] for r in after[1]):
+            out.append(('copy-not-disjoint', f'{op} made a copy subscribed to / registered with the original nodes'))
+    if kind in ('segment', 'validate'):
         h, t = op[1], op[2]
         if res[0] == 'node':
             if t is None and cycle_from(after, h):
                 out.append(('cycle-not-rejected', f'{op} succeeded although a cycle is reachable from {h}'))
             if t is None and res[1] not in reachable(after, h):
                 out.append(('tail-not-reachable', f'{op} returned tail {res[1]} not reachable from {h}'))
-            if op[0] == 'validate' and not _is_worker(after, h) and res[1] != h:
+            if kind == 'validate' and not _is_worker(after, h) and res[1] != h:
                 # (a Future that is head and tail at once is ignored by design: 'Potential tail Future node is ignored')
-                tl = res[1]
-                aliased = len(after[0][h]) == len(after[0][tl]) > 0 and after[0][h] == after[0][tl]
-                sig = 'placeholder-accepted-head-aliases-tail' if aliased else 'placeholder-accepted'
+                sig = 'placeholder-accepted-head-aliases-tail' if _aliased(after, h, res[1]) else 'placeholder-accepted'
                 out.append((sig, f'{op} accepted a segment headed by a Future'))
     return out
+
+
+def _segs(op) -> list:
+    """the (head, tail) descriptions of the segments a call builds first"""
+    k = op[0]
+    if k in ('copy', 'segment', 'validate'):
+        return [(op[1], op[2])]
+    if k == 'extend':
+        return [(op[1], op[2])] + ([tuple(op[3])] if op[3] is not None else [])
+    if k == 'trunk':
+        return [tuple(s) for s in op[1:4] if s is not None]
+    if k == 'textend':
+        return [tuple(s) for s in op[1]] + [tuple(s) for s in op[2:5] if s is not None]
+    if k == 'compose':
+        return [(op[1], op[2]), (op[3], op[4])] if len(op) == 5 else [tuple(s) for t in op[1] for s in t]
+    return []
 
 
 def _touches_future(op, dump) -> bool:
@@ -343,19 +560,12 @@ def _touches_future(op, dump) -> bool:
         ns = [op[1], op[2], op[4]]
     else:
         return False
-    if any(n < len(dump[0]) and not _is_worker(dump, n) for n in ns):
-        return True
-    # a worker publisher/subscriber that is (transitively) registered on a placeholder
-    return False
+    return any(n < len(dump[0]) and not _is_worker(dump, n) for n in ns)
 
 
 # =============================================================================================
 # generator (online: consults the dumped real state to aim 70 % of the calls at legal ones)
 # =============================================================================================
-def _shapes(dump, real):
-    return [(n.szin, n.szout) for n in real.nodes]
-
-
 def gen_op(rng: random.Random, real: Real, dump, last_failed, extra_ops: bool, allow_regcycle: bool):
     nodes = real.nodes
     n = len(nodes)
@@ -367,7 +577,7 @@ def gen_op(rng: random.Random, real: Real, dump, last_failed, extra_ops: bool, a
     def mk():
         r = rng.random()
         if r < 0.25:
-            k = rng.choice([1, 1, 2])
+            k = rng.choice([1, 1, 1, 2, 2, 3])
             return ['mkfuture', k, k]
         if r < 0.45 and workers:
             return ['fork', rng.choice(workers + futures)]
@@ -377,6 +587,9 @@ def gen_op(rng: random.Random, real: Real, dump, last_failed, extra_ops: bool, a
     if n < 3 or (n < MAXN and rng.random() < 0.12):
         if rng.random() < 0.04:
             return ['mkworker', True, 0, 0]  # invalid shape
+        if futures and rng.random() < 0.08:
+            f = rng.choice(futures)  # a placeholder published to itself (refused) before the other nodes exist
+            return ['pub', f, 0, f, 0]
         return mk()
     if last_failed is not None and rng.random() < 0.25:
         return last_failed  # retry after a failure
@@ -411,24 +624,69 @@ def gen_op(rng: random.Random, real: Real, dump, last_failed, extra_ops: bool, a
                     todo.append(y)
         return False
 
-    if extra_ops and r < 0.10:
-        return ['copy', rng.randrange(n), None if rng.random() < 0.7 else rng.randrange(n)]
-    if extra_ops and r < 0.22:
-        return ['extend', rng.randrange(n), None if rng.random() < 0.7 else rng.randrange(n), rng.randrange(n)]
-    if extra_ops and r < 0.36:
-        # a composition with a placeholder (that has subscribers) heading exactly one of the two paths, or random paths
-        fheads = [f for f in futures if any(dump[0][f])]
+    heads = [i for i in range(n) if nodes[i].szin <= 1 and not (i in winfo and winfo[i][1])]
+
+    def seg(h=None):
+        """a segment description: auto-traced, or with a tail taken from what the head reaches, or a random one"""
+        if h is None:
+            h = rng.choice(heads) if heads and legal else rng.randrange(n)
+        q = rng.random()
+        if q < 0.6:
+            return [h, None]
+        if q < 0.9:
+            return [h, rng.choice(sorted(reachable(dump, h)))]
+        return [h, rng.randrange(n)]
+
+    def one_sided():
+        """three heads, a placeholder that has subscribers on exactly one of them (if there is such a placeholder)"""
+        fheads = [f for f in futures if any(dump[0][f]) and nodes[f].szin <= 1]
         wheads = [w for w in workers if nodes[w].szin <= 1 and not winfo[w][1]]
-        if fheads and wheads and rng.random() < 0.6:
-            f, w = rng.choice(fheads), rng.choice(wheads)
-            return ['compose', w, None, f, None] if rng.random() < 0.5 else ['compose', f, None, w, None]
+        if not fheads or not wheads:
+            return None
+        hs = [rng.choice(wheads) for _ in range(3)]
+        hs[rng.randrange(3)] = rng.choice(fheads)
+        return [[h, None] for h in hs]
+
+    if extra_ops and r < 0.10:
+        # out-of-shape and legacy forms: oracle only
+        if rng.random() < 0.5:
+            return ['extend', rng.randrange(n), None if rng.random() < 0.7 else rng.randrange(n), rng.randrange(n)]
         return ['compose', rng.randrange(n), None if rng.random() < 0.7 else rng.randrange(n),
                 rng.randrange(n), None if rng.random() < 0.7 else rng.randrange(n)]
-    if r < 0.14:
+    if r < 0.05 and n <= 9:
+        return ['copy'] + seg()
+    if r < 0.12:
+        q = rng.random()
+        left = seg()
+        if q < 0.7:
+            cands = [x for x in range(n) if nodes[x].szin == 1 and x != left[0] and
+                     (x in futures or not winfo[x][4])] if legal else []
+            right = seg(rng.choice(cands)) if cands else seg(rng.randrange(n))
+            if rng.random() < 0.5:
+                right[1] = None
+            return ['extend'] + left + [right, None if rng.random() < 0.85 else rng.randrange(n)]
+        return ['extend'] + left + [None, None if q < 0.85 else rng.randrange(n)]
+    if r < 0.15 and n <= MAXTOTAL - 3:
+        modes = [None if rng.random() < 0.35 else seg() for _ in range(3)]
+        return ['trunk'] + modes
+    if r < 0.19:
+        base = [seg() for _ in range(3)]
+        ext = [None if rng.random() < 0.4 else seg() for _ in range(3)]
+        for e in ext:
+            if e is not None and rng.random() < 0.7:
+                e[1] = None
+        return ['textend', base] + ext
+    if r < 0.24:
+        first = one_sided() if rng.random() < 0.5 else None
+        trunks = [first or [seg() for _ in range(3)]]
+        for _ in range(rng.choice([0, 0, 1, 1, 2])):
+            trunks.append([seg() for _ in range(3)])
+        return ['compose', trunks]
+    if r < 0.33:
         h = rng.randrange(n)
         t = None if rng.random() < 0.6 else rng.randrange(n)
         return [rng.choice(['segment', 'segment', 'validate']), h, t]
-    if r < 0.32 and workers:
+    if r < 0.47 and workers:
         # train
         if legal:
             cands = [w for w in workers
@@ -470,32 +728,265 @@ def gen_op(rng: random.Random, real: Real, dump, last_failed, extra_ops: bool, a
     return ['segment', rng.randrange(n), None]
 
 
-def run_sequence(ops_or_seed, length: int = 0, extra_ops: bool = False, allow_regcycle: bool = False):
-    """Run a fixed op list, or generate `length` ops online from a seed.
+class Prog:
+    """Builder of a fixed op list that keeps track of the node numbering (every creation is expected to succeed)."""
+
+    def __init__(self):
+        self.ops: list = []
+        self.n = 0
+        self.shape: dict = {}
+
+    def worker(self, stateful=False, szin=1, szout=1):
+        self.ops.append(['mkworker', stateful, szin, szout])
+        self.shape[self.n] = ('w', szin, szout)
+        self.n += 1
+        return self.n - 1
+
+    def future(self, k=1):
+        self.ops.append(['mkfuture', k, k])
+        self.shape[self.n] = ('f', k, k)
+        self.n += 1
+        return self.n - 1
+
+    def fork(self, x):
+        self.ops.append(['fork', x])
+        self.shape[self.n] = self.shape[x]
+        self.n += 1
+        return self.n - 1
+
+    def link(self, rng, p, i, s, j):
+        """p[i] -> s[j] through either side of the port API"""
+        self.ops.append(['sub', s, j, p, i] if rng.random() < 0.5 else ['pub', p, i, s, j])
+
+    def trunk(self, modes):
+        """Trunk with default futures for the missing modes; returns the resolved heads"""
+        self.ops.append(['trunk'] + [None if m is None else [m, None] for m in modes])
+        heads = []
+        for m in modes:
+            if m is None:
+                self.shape[self.n] = ('f', 1, 1)
+                heads.append(self.n)
+                self.n += 1
+            else:
+                heads.append(m)
+        return heads
+
+
+def chain_case(rng: random.Random):
+    """A chain of 2..5 placeholders (1..3 lanes each) between workers, wired in a random order through either side of
+    the port API; then calls that have to be refused deep inside the chain (a loop closed through the whole chain, a
+    trained worker feeding it, a taken input port), each followed by legal calls that would expose what a refused
+    call left behind; `tail` random calls are generated online after it."""
+    p = Prog()
+    k = rng.randint(2, 5)
+    lanes = rng.choice([1, 1, 1, 2, 2, 3])
+    if rng.random() < 0.35:
+        # the placeholders exist (and have refused a few calls among themselves) before the workers are created
+        futs = [p.future(lanes) for _ in range(k)]
+        for _ in range(rng.randint(1, 2)):
+            a, b = rng.choice(futs), rng.choice(futs)
+            ln = rng.randrange(lanes)
+            p.ops.append(['pub', a, ln, a, ln] if rng.random() < 0.6 else ['sub', a, ln, a, ln] if rng.random() < 0.5
+                         else ['pub', a, ln, b, ln])
+        src = [p.worker(rng.random() < 0.3, 1, 1) for _ in range(lanes)]
+    else:
+        src = [p.worker(rng.random() < 0.3, 1, 1) for _ in range(lanes)]
+        futs = [p.future(lanes) for _ in range(k)]
+    sinks = [p.worker(False, 1, 1) for _ in range(lanes)]
+    links = []
+    perm = [list(range(lanes)) for _ in range(k + 1)]
+    for q in perm:
+        if rng.random() < 0.4:
+            rng.shuffle(q)  # crossing lanes
+    for ln in range(lanes):
+        links.append((src[ln], 0, futs[0], perm[0][ln]))
+        for a in range(k - 1):
+            links.append((futs[a], ln, futs[a + 1], perm[a + 1][ln]))
+        if rng.random() < 0.8:
+            links.append((futs[-1], ln, sinks[ln], 0))
+    rng.shuffle(links)
+    hold = [links.pop() for _ in range(rng.choice([0, 0, 1, 2])) if links]  # connected after the refused calls
+    for a, i, b, j in links:
+        p.link(rng, a, i, b, j)
+    for _ in range(rng.randint(1, 3)):
+        q = rng.random()
+        ln = rng.randrange(lanes)
+        if q < 0.4:
+            # a loop through the chain: some placeholder (or the sink) feeds the source of its own lane
+            a = rng.choice(futs + [sinks[ln]])
+            p.link(rng, a, ln if a in futs else 0, src[ln], 0)
+        elif q < 0.6:
+            # a placeholder of the chain registered on a placeholder downstream of it (registration cycle)
+            a, b = sorted(rng.sample(range(k), 2)) if k > 1 else (0, 0)
+            p.link(rng, futs[b], ln, futs[a], rng.randrange(lanes))
+        elif q < 0.8:
+            # a trainer fed by the end of the chain, then the trained node publishing into the chain
+            t = p.worker(True, 1, 1)
+            p.ops.append(['train', t, futs[-1], ln, futs[rng.randrange(k)], rng.randrange(lanes)])
+            p.link(rng, t, 0, futs[0], rng.randrange(lanes))
+        else:
+            # an input port that is taken
+            p.link(rng, futs[rng.randrange(k)], ln, sinks[rng.randrange(lanes)], 0)
+        for a, i, b, j in hold[:1]:
+            p.link(rng, a, i, b, j)
+        hold = hold[1:]
+        if rng.random() < 0.6:
+            w = p.worker(False, 1, 1)
+            p.link(rng, rng.choice(futs), rng.randrange(lanes), w, 0)
+        if rng.random() < 0.3:
+            w = p.worker(False, 1, 1)
+            p.link(rng, w, 0, rng.choice(futs), rng.randrange(lanes))  # a second publisher (C11-F1 class)
+    for a, i, b, j in hold:
+        p.link(rng, a, i, b, j)
+    if rng.random() < 0.5:
+        # around the head of the chain: a feeder for a source, one more direct subscriber of that source, then a
+        # second feeder for the same input port (to be refused)
+        ln = rng.randrange(lanes)
+        steps = [lambda: p.link(rng, p.worker(False, 1, 1), 0, src[ln], 0),
+                 lambda: p.link(rng, src[ln], 0, p.worker(False, 1, 1), 0)]
+        if rng.random() < 0.3:
+            steps.reverse()
+        for st in steps:
+            st()
+        p.link(rng, p.worker(False, 1, 1), 0, src[ln], 0)
+    if rng.random() < 0.5:
+        p.ops.append([rng.choice(['segment', 'validate', 'copy']), src[0], None])
+    return p.ops
+
+
+def pipeline_case(rng: random.Random):
+    """A composition the way operators build it: a source trunk (complete, or with some of its apply / train /
+    label modes left to the default placeholder) followed by 0..3 operator trunks (placeholder heads of the
+    operator's scope extended by its workers: mapper in both modes, in one mode only, or a trainer), then
+    flow.Composition over them - to be refused exactly when the apply or the train path is still headed by a
+    placeholder."""
+    p = Prog()
+    kinds = rng.choice([(1, 1, 1), (1, 1, 1), (1, 0, 0), (0, 1, 1), (1, 1, 0), (0, 0, 0), (1, 0, 1), (0, 1, 0)])
+    src = p.worker(False, rng.choice([0, 1]), 1)
+    modes = [None, None, None]
+    for m in range(3):
+        if kinds[m]:
+            modes[m] = src if m == 0 else p.fork(src) if rng.random() < 0.7 else p.worker(False, 1, 1)
+    heads = p.trunk(modes)
+    trunks = [[[h, None] for h in heads]]
+    for _ in range(rng.choice([0, 1, 1, 2, 2, 3])):
+        scope = p.trunk([None, None, None])  # Origin().expand()
+        q = rng.random()
+        if q < 0.45:  # mapper in both modes
+            w = p.worker(False, 1, 1)
+            ext = [[w, None], [p.fork(w), None], None]
+        elif q < 0.6:  # apply only / train only / label
+            w = p.worker(False, 1, 1)
+            ext = [None, None, None]
+            ext[rng.randrange(3)] = [w, None]
+        else:  # a trainer: applier in the apply path, its fork trained from the train and label paths
+            w = p.worker(True, 1, 1)
+            trainer = p.fork(w)
+            p.ops.append(['train', trainer, scope[1], 0, scope[2], 0])
+            ext = [[w, None], [p.fork(w), None] if rng.random() < 0.7 else None, None]
+        p.ops.append(['textend', [[h, None] for h in scope]] + ext)
+        trunks.append([[h, None] for h in scope])
+    if rng.random() < 0.15 and len(trunks) > 1:
+        rng.shuffle(trunks)
+    p.ops.append(['compose', trunks])
+    return p.ops
+
+
+def run_sequence(spec, length: int = 0, extra_ops: bool = False, allow_regcycle: bool = False):
+    """Run a fixed op list, or generate `length` ops online from a seed, or (a tuple) a fixed prefix followed by
+    `length` ops generated online from a seed.
     Returns (ops, records, verdicts): records = [[res, outs, regs, workers]], verdicts = [(i, sig, what)]."""
     real = Real()
     try:
-        fixed = not isinstance(ops_or_seed, int)
-        rng = None if fixed else random.Random(ops_or_seed)
+        if isinstance(spec, int):
+            prefix, seed = [], spec
+        elif isinstance(spec, tuple):
+            prefix, seed = spec
+        else:
+            prefix, seed = spec, None
+        rng = None if seed is None else random.Random(seed)
         ops, records, verdicts = [], [], []
         before = real.dump()
+        orph = real.orphans()
         last_failed = None
-        total = len(ops_or_seed) if fixed else length
+        total = len(prefix) + (length if seed is not None else 0)
         for i in range(total):
-            op = ops_or_seed[i] if fixed else gen_op(rng, real, before, last_failed, extra_ops, allow_regcycle)
+            if len(real.nodes) > MAXTOTAL + 6:
+                break
+            op = prefix[i] if i < len(prefix) else gen_op(rng, real, before, last_failed, extra_ops, allow_regcycle)
             res, cls = real.call(op)
             after = real.dump()
+            orph2 = real.orphans()
             ops.append(op)
             records.append([res] + after)
             # the first failing call is the witness, what follows may be a consequence of it; listed findings do
             # not stop the judging (a later, different failure of the same sequence must still be reported)
             if all(v[1] in KNOWN_SIGS for v in verdicts):
-                for sig, what in judge(op, res, cls, before, after):
+                for sig, what in judge(op, res, cls, before, after, (orph, orph2), real.future_in_ports()):
+                    if sig in ('not-atomic-textend', 'not-atomic-compose'):
+                        sig, what = _staged(ops, res, after, sig, what)
                     if not any(v[1] == sig for v in verdicts):
                         verdicts.append((i, sig, what))
-            last_failed = op if res[0] == 'err' else None
-            before = after
+            last_failed = op if res[0] == 'err' and res[1] != 'no-node' else None
+            before, orph = after, orph2
+            if real.approx or real.future_in_ports():
+                records[-1][0] = ['approx'] + records[-1][0]
         return ops, records, verdicts
+    finally:
+        real.close()
+
+
+def _staged(ops, res, after, sig, what):
+    """A trunk call (Trunk.extend, flow.Composition) that raised and changed the graph: replay the sequence with the
+    call replaced by the single-segment calls it stands for (every segment involved built first, then
+    `Segment.extend` mode by mode: apply, train, label).  When that gives the same graph - every completed stage
+    kept, the refused stage leaving nothing - the change is the missing roll-back between the stages (one root
+    cause, `...-later-stage`); anything else keeps the signature of an unexplained change."""
+    real = Real()
+    try:
+        for op in ops[:-1]:
+            real.call(op)
+            real.dump()  # (as the run being explained did: reading Worker.input makes the worker's registry entry)
+            real.orphans()
+        op = norm(ops[-1])
+        done, last = 0, None
+
+        def stage(left, right):
+            """one Segment.extend; returns the new segment, or None when it was refused without a trace"""
+            nonlocal done, last
+            b = real.dump()
+            try:
+                new = left.extend(right)
+            except Exception as e:  # pylint: disable=broad-except
+                msg = str(e)
+                last = next((kd for prefix, kd in MESSAGES if msg.startswith(prefix)), f'class:{type(e).__name__}')
+                if real.dump() != b and last not in TRACING:
+                    last = 'stage-not-atomic'
+                return None
+            done += 1
+            return new
+
+        try:
+            if op[0] == 'textend':
+                cur = [real.seg(x) for x in op[1]]
+                ext = [None if x is None else real.seg(x) for x in op[2:5]]
+                for m in range(3):
+                    if ext[m] is not None and last is None:
+                        cur[m] = stage(cur[m], ext[m])
+            elif op[0] == 'compose' and len(op) == 2:
+                cur = [real.seg(x) for x in op[1][0]]
+                for spec in op[1][1:]:
+                    if last is not None:
+                        break
+                    ext = [real.seg(x) for x in spec]
+                    for m in range(3):
+                        if last is None:
+                            cur[m] = stage(cur[m], ext[m])
+        except Exception:  # pylint: disable=broad-except
+            return sig, what
+        if last is not None and last == res[1] and done > 0 and real.dump() == after:
+            return 'not-atomic-trunk-extend-later-stage', what + f' (the {done} stage(s) completed before the refused one stay)'
+        return sig, what
     finally:
         real.close()
 
@@ -508,6 +999,10 @@ def _batch(args):
             seed, length, extra, regc = it
             ops, recs, verd = run_sequence(seed, length, extra, regc)
             out.append((ops, sexp.dumps(recs), verd))
+        elif kind == 'prefix':
+            prefix, seed, length = it
+            ops, recs, verd = run_sequence((prefix, seed), length)
+            out.append((ops, sexp.dumps(recs), verd))
         elif kind == 'final':
             ops, recs, verd = run_sequence(it)
             out.append((ops, sexp.dumps([[r[0] for r in recs], recs[-1][1:]]), verd))
@@ -517,8 +1012,78 @@ def _batch(args):
     return out
 
 
-def op_sexp(op):
-    return [('none' if x is None else x) for x in op]
+# =============================================================================================
+# shrinking of a failing sequence (on the real code)
+# =============================================================================================
+def _created(ops) -> list:
+    """number of nodes after each op of the sequence (on the real code)"""
+    real = Real()
+    try:
+        out = []
+        for op in ops:
+            real.call(op)
+            out.append(len(real.nodes))
+        return out
+    finally:
+        real.close()
+
+
+def _without(ops, j, counts):
+    """the sequence with op j removed: later ops naming a node it created are dropped, the others renumbered"""
+    lo = counts[j - 1] if j else 0
+    hi = counts[j]
+
+    def f(x):
+        if lo <= x < hi:
+            raise Drop()
+        return x - (hi - lo) if x >= hi else x
+
+    out = list(ops[:j])
+    for op in ops[j + 1:]:
+        try:
+            out.append(walk(op, f))
+        except Drop:
+            continue
+    return out
+
+
+def fails_with(ops, sig) -> typing.Optional[int]:
+    """index of the call at which the oracle gives `sig` on the real code"""
+    _, _, verdicts = run_sequence(ops)
+    return next((i for i, s, _ in verdicts if s == sig), None)
+
+
+def shrink(ops, sig, budget: int = 400):
+    """Greedy one-at-a-time removal (with renumbering) as long as the oracle still gives the same signature."""
+    at = fails_with(ops, sig)
+    if at is None:
+        return ops
+    ops = ops[: at + 1]
+    changed = True
+    while changed and budget > 0:
+        changed = False
+        counts = _created(ops)
+        for j in range(len(ops) - 2, -1, -1):
+            if budget <= 0:
+                break
+            cand = _without(ops, j, counts)
+            budget -= 1
+            at = fails_with(cand, sig)
+            if at is not None:
+                ops = cand[: at + 1]
+                changed = True
+                break
+    # simplify what is left: smaller shapes, stateless workers
+    for j, op in enumerate(ops):
+        for simpler in ([['mkworker', False, 1, 1], ['mkworker', True, 1, 1]] if op[0] == 'mkworker' else
+                        [['mkfuture', 1, 1]] if op[0] == 'mkfuture' else []):
+            if simpler != op and budget > 0:
+                cand = ops[:j] + [simpler] + ops[j + 1:]
+                budget -= 1
+                if fails_with(cand, sig) == len(cand) - 1:
+                    ops = cand
+                    break
+    return ops
 
 
 # =============================================================================================
@@ -553,18 +1118,51 @@ CORPUS = [
      ['segment', 0, None], ['segment', 0, 1], ['validate', 0, None]],
     [['mkworker', False, 1, 2], ['mkworker', False, 1, 1], ['mkworker', False, 1, 1], ['mkworker', False, 2, 1],
      ['sub', 1, 0, 0, 0], ['sub', 2, 0, 0, 1], ['sub', 3, 0, 1, 0], ['sub', 3, 1, 2, 0],
-     ['segment', 0, None], ['segment', 0, 3], ['segment', 3, None], ['segment', 1, 2], ['segment', 1, 0]],
+     ['segment', 0, None], ['segment', 0, 3], ['segment', 3, None], ['segment', 1, 2], ['segment', 1, 0],
+     ['copy', 0, 3], ['copy', 1, None], ['extend', 0, 3, None, None], ['extend', 1, None, None, 3]],
     # train / fork rules
     [['mkworker', True, 1, 1], ['fork', 0], ['mkworker', False, 1, 1], ['train', 0, 2, 0, 2, 0],
      ['train', 1, 2, 0, 2, 0], ['sub', 2, 0, 0, 0], ['sub', 0, 0, 2, 0], ['sub', 1, 0, 2, 0], ['train', 2, 1, 0, 1, 0],
-     ['segment', 2, None], ['validate', 2, 1]],
+     ['segment', 2, None], ['validate', 2, 1], ['copy', 2, None]],
     [['mkworker', True, 0, 0], ['mkworker', True, 1, 1], ['mkworker', False, 1, 1], ['sub', 0, 0, 1, 0],
      ['train', 0, 1, 0, 1, 0], ['sub', 0, 0, 1, 0], ['sub', 1, 0, 0, 0], ['train', 0, 1, 0, 1, 0]],
+    # copy: a chain with a trained side branch and a placeholder head; a dangling placeholder tail stands for its
+    # publisher; a region in which two ports hold one subscription is refused (and leaves forks behind: C11-F4)
+    [['mkfuture', 1, 1], ['mkworker', False, 1, 1], ['mkworker', False, 1, 1], ['mkworker', True, 1, 1],
+     ['sub', 1, 0, 0, 0], ['sub', 2, 0, 1, 0], ['train', 3, 1, 0, 0, 0], ['copy', 0, None], ['copy', 1, 2],
+     ['mkfuture', 1, 1], ['sub', 9, 0, 2, 0], ['copy', 1, 9], ['segment', 4, None], ['validate', 5, None]],
+    [['mkworker', False, 1, 2], ['mkworker', False, 1, 1], ['mkworker', False, 1, 1], ['mkfuture', 1, 1],
+     ['mkworker', False, 1, 1], ['sub', 1, 0, 0, 0], ['sub', 2, 0, 0, 1], ['sub', 3, 0, 1, 0], ['sub', 3, 0, 2, 0],
+     ['sub', 4, 0, 3, 0], ['copy', 0, 4], ['copy', 1, None]],
+    # extend: node and segment forms, explicit tail, a refused subscription, a tracing refusal after the subscription
+    [['mkworker', False, 1, 1], ['mkworker', False, 1, 1], ['mkworker', False, 1, 1], ['mkfuture', 1, 1],
+     ['extend', 0, None, [1, None], None], ['extend', 0, None, [1, None], None], ['extend', 0, 1, [3, None], None],
+     ['extend', 0, None, [2, 2], 2], ['extend', 0, None, None, None], ['extend', 0, None, None, 1],
+     ['extend', 1, None, [0, None], None], ['extend', 2, None, [2, None], None]],
+    # trunk / trunk extend / composition: default placeholders, a later stage refused (C11-F3), one-sided placeholders
+    [['mkworker', False, 0, 1], ['fork', 0], ['mkworker', False, 1, 1], ['trunk', [0, None], [1, None], None],
+     ['mkworker', False, 1, 1], ['fork', 4], ['textend', [[0, None], [1, None], [3, None]], [4, None], [5, None], None],
+     ['compose', [[[0, None], [1, None], [3, None]]]], ['trunk', [0, None], None, None],
+     ['compose', [[[0, None], [6, None], [7, None]]]], ['compose', [[[6, None], [0, None], [7, None]]]],
+     ['mkworker', False, 1, 1], ['sub', 8, 0, 6, 0], ['compose', [[[0, None], [6, None], [7, None]]]],
+     ['compose', [[[6, None], [1, None], [7, None]]]]],
+    [['mkworker', False, 0, 1], ['mkworker', False, 1, 1], ['mkworker', False, 1, 1], ['mkworker', False, 1, 1],
+     ['sub', 3, 0, 1, 0], ['textend', [[0, None], [1, None], [2, None]], [2, None], [3, None], None],
+     ['mkworker', False, 1, 1], ['textend', [[0, None], [1, None], [4, None]], [4, None], [3, None], None]],
+    [['mkworker', False, 0, 1], ['fork', 0], ['fork', 0], ['trunk', None, None, None], ['mkworker', True, 1, 1],
+     ['fork', 6], ['fork', 6], ['train', 7, 4, 0, 5, 0], ['textend', [[3, None], [4, None], [5, None]], [6, None], [8, None], None],
+     ['compose', [[[0, None], [1, None], [2, None]], [[3, None], [4, None], [5, None]]]],
+     ['compose', [[[0, None], [1, None], [2, None]], [[3, None], [4, None], [5, None]]]]],
 ]
 
 
 # sequences with calls that are not modelled (oracle only)
 ORACLE_CORPUS = [
+    # a refused self-publish gives the placeholder an entry in _PORTS; a worker that later looks like it (its
+    # registered publisher) gets its port recorded there, and loses it when the two stop looking alike (C11-F5)
+    [['mkfuture', 1, 1], ['pub', 0, 0, 0, 0], ['mkworker', False, 1, 1], ['sub', 0, 0, 1, 0], ['mkworker', False, 1, 1],
+     ['sub', 2, 0, 0, 0], ['mkworker', False, 1, 1], ['sub', 1, 0, 3, 0], ['mkworker', False, 1, 1], ['sub', 4, 0, 1, 0],
+     ['mkworker', False, 1, 1], ['sub', 1, 0, 5, 0]],
     # a composition with a placeholder heading exactly one path (train, then apply), then a clean one
     [['mkworker', False, 0, 1], ['mkworker', False, 1, 1], ['sub', 1, 0, 0, 0], ['mkfuture', 1, 1],
      ['mkworker', False, 1, 1], ['sub', 3, 0, 2, 0], ['compose', 0, None, 2, None], ['compose', 2, None, 0, None],
@@ -579,31 +1177,49 @@ class C11(fw.Check):
     ID = 'C11'
     LEAN_MODULES = ['ForML.Props.C11']
     DRIVER = 'drv_c11'
-    RULE = ('op sequences over a universe of <= 6 nodes (workers 1:1/2:1/1:2/2:2/0:1/1:0 stateful or not, forks, futures '
-            '1:1/2:2): create/fork, s[j].subscribe(p[i]) or p[i].publish(s, Apply(j)) (either side of the port API), n.train(a[i], b[k]), Segment(h[,t]), Segment.accept(Validator); '
+    RULE = ('op sequences over a universe of <= 6 created nodes (workers 1:1/2:1/1:2/2:2/0:1/1:0 stateful or not, forks, futures '
+            '1:1/2:2/3:3; copies and default trunk placeholders take it to <= 14): create/fork, s[j].subscribe(p[i]) or '
+            'p[i].publish(s, Apply(j)) (either side of the port API), n.train(a[i], b[k]), Segment(h[,t]), '
+            'Segment.accept(Validator), Segment.copy, Segment.extend (node / segment / explicit tail / retrace), '
+            'Trunk(apply, train, label) with default placeholders, Trunk.extend, flow.Composition over 1..3 operator trunks; '
             'generated online against the real graph: 70 % of the calls are aimed at legal ones, 30 % uniformly random '
             '(mostly illegal), failed calls are retried with probability 1/4; hand-written corpus and the witnesses of '
             'findings.d first; thorough adds every sequence of <= 4 state-changing calls from a 22-call alphabet on a fixed '
             '4-node universe (all results + final state compared). Transparency stream: random legal wirings through 1..3 '
             'futures executed in several (thorough: up to all) orders, worker-to-worker connections compared with the path '
-            'closure of the requested wiring. Oracle-only stream (not modelled): Segment.copy, Segment.extend, flow.Composition over Trunk(apply, train) '
-            'with a placeholder heading exactly one path, cycles of '
-            'placeholders. Every call of every sequence is one evaluation; a sequence is distinct by its op list and '
-            'non-trivial when it contains at least three kinds of calls.')
+            'closure of the requested wiring. Chain stream: 2..5 placeholders of 1..3 lanes between workers wired in a '
+            'random order through either side of the port API (a third of them: the placeholders first, refusing calls among '
+            'themselves, the workers afterwards), calls refused deep in the chain (loop through the chain, registration '
+            'cycle, trained publisher, taken port), legal follow-ups, a feeder / one more subscriber / a second feeder around '
+            'a source, random continuation. Pipeline stream: '
+            'source trunk with any subset of its modes left to the default placeholder + 0..3 operator trunks (mapper in '
+            'both / one mode, trainer) + flow.Composition, random continuation. Oracle-only stream (not modelled): '
+            'out-of-shape port indices, cycles of placeholders. Every call of every sequence is one evaluation; a sequence '
+            'is distinct by its op list and non-trivial when it contains at least three kinds of calls.')
     TRUSTED = [
         'Python object identity and uuid4 are modelled by list indices; Subscription.__del__ / GC driven clean-up of '
         '_PORTS is not modelled (all nodes are kept alive during a sequence, _PORTS is cleared/restored around it)',
         'Node.__eq__/__hash__ Future/Worker aliasing inside sets of Traversal is modelled as the code computes it '
-        '(eqNode/memNode)',
+        '(eqNode/memNode); inside Traversal.copy (copies dict, seen set) it is not: the model abstains when two '
+        'different nodes involved in a copy compare equal (such sequences are compared up to that call)',
         'the Publisher-collision check of Future.register (same proxy object registered twice) is not reachable '
         'through node[i] (a fresh proxy per call) and is not modelled',
         'Future._collapse re-publishes every (registered publisher, held subscription) pair; the model forwards the '
         'new subscription only (re-publishing an already published pair is a no-op in every reachable state)',
         'the model follows the code with fixes/C11-atomic-topology-errors.diff applied',
+        'Segment.copy: the model makes every check before it creates a fork (the code forks and subscribes lazily; what a '
+        'refused copy leaves behind in the worker groups is finding C11-F4 and is not part of the compared state), a '
+        'refused copy is compared by exception class only, and the final re-tracing Segment(copy of head, copy of tail) '
+        'is reduced to its shape check; the numbering of the copies is taken from the mapping Traversal.copy returns',
+        'the model keys the _PORTS registry by identity (a Future never has an entry - true of the code with '
+        'fixes/C11-ports-registry-future-entry.diff; finding C11-F5 otherwise): a sequence is compared up to the call that '
+        'gives a Future a registry entry; the harness reads Worker.input after every call, which creates the entry of '
+        'every worker it holds',
+        'two refusals are compared by exception class (which topology message comes first is incidental)',
     ]
     ASSUMPTIONS = ['port indices are within the node shape (Node._publish asserts the output index; input indices are '
-                   'not validated by forml at construction time) - out-of-shape indices are exercised by the oracle-only '
-                   'stream through Segment.extend only',
+                   'not validated by forml at construction time) - a sequence is compared up to the first call answered '
+                   'with AssertionError; out-of-shape indices are exercised under the oracle only',
                    'futures are square (szin == szout), as created by forml itself']
 
     def __init__(self, tier, seed):
@@ -611,6 +1227,7 @@ class C11(fw.Check):
         KNOWN_SIGS.clear()
         KNOWN_SIGS.update(e['signature'] for e in fw._load_findings(self.ID)  # pylint: disable=protected-access
                           if e.get('status') == 'finding')
+        self._shrunk: dict = {}
 
     # ---- plumbing ---------------------------------------------------------------------------
     def _pool_map(self, kind, items, chunk=200):
@@ -622,14 +1239,31 @@ class C11(fw.Check):
         with ctx.Pool(procs, maxtasksperchild=20) as pool:
             return [r for rs in pool.map(_batch, chunks) for r in rs]
 
+    def _report(self, ops, i, sig, what):
+        """One oracle verdict -> violation; the first witness of every signature that is not a listed finding is
+        shrunk on the real code."""
+        witness = ops[: i + 1]
+        if sig not in KNOWN_SIGS:
+            if sig not in self._shrunk:
+                small = shrink(witness, sig)
+                self._shrunk[sig] = small
+                if small != witness:
+                    _, _, verdicts = run_sequence(small)
+                    hit = next((v for v in verdicts if v[1] == sig), None)
+                    if hit is not None:
+                        witness, what = small[: hit[0] + 1], hit[2]
+            else:
+                return  # one witness per root cause
+        self.violate(what, {'ops': witness}, sig)
+
     def _account(self, ops, verdicts, stream):
         """Feed evidence + turn oracle verdicts into violations (witness = the op prefix)."""
         for i, sig, what in verdicts:
-            self.violate(what, {'ops': ops[: i + 1]}, sig)
+            self._report(ops, i, sig, what)
         nerr = len({i for i, s, _ in verdicts if s.startswith('not-atomic')})
         kinds = sorted({op[0] for op in ops})
         self.evaluations += len(ops) - 1
-        self.case(tuple(map(tuple, ops)), f'{stream} len={min(len(ops), 16)}',
+        self.case(repr(ops), f'{stream} len={min(len(ops), 16)}',
                   nontrivial=len(kinds) >= 3, sample={'ops': ops[:10]} if nerr == 0 and len(self.samples) < 6 else None)
 
     def _compare(self, results, mode, stream):
@@ -650,35 +1284,55 @@ class C11(fw.Check):
             return
         if mode == 'seqf':
             rr, mr = r[0], m[0] if isinstance(m, list) and m else m
-            if self._res_differs(rr, mr) or r[1] != m[1]:
-                self.diverge('results / final state', {'ops': ops}, r, m)
+            if not isinstance(mr, list) or len(rr) != len(mr):
+                self.diverge('model answer shape', {'ops': ops}, len(rr), mr)
+                return
+            for i, (ra, rb) in enumerate(zip(rr, mr)):
+                if self._outside(ra, rb):
+                    self.histogram['compared up to a call outside the modelled domain'] += 1
+                    return
+                if not self._same_res(ops[i], ra, rb):
+                    self.diverge(f'result of call {i} {ops[i]}', {'ops': ops[: i + 1]}, ra, rb)
+                    return
+            if r[1] != m[1]:
+                self.diverge('final state', {'ops': ops}, r[1], m[1])
             return
         if not isinstance(m, list) or len(m) != len(r):
             self.diverge('model answer shape', {'ops': ops}, len(r), m if not isinstance(m, list) else len(m))
             return
         for i, (a, b) in enumerate(zip(r, m)):
-            if self._res_differs([a[0]], [b[0]]) or a[1:] != b[1:]:
+            if self._outside(a[0], b[0]):
+                self.histogram['compared up to a call outside the modelled domain'] += 1
+                return
+            if not self._same_res(ops[i], a[0], b[0]) or a[1:] != b[1:]:
                 self.diverge(f'state after call {i} {ops[i]}', {'ops': ops[: i + 1]}, a, b)
                 return
 
     @staticmethod
-    def _res_differs(rr, mr) -> bool:
-        if len(rr) != len(mr):
+    def _outside(ra, rb) -> bool:
+        """outside the modelled domain: the sequence is compared up to this call"""
+        return ra[0] == 'approx' or (ra[0] == 'err' and ra[1] == 'class:AssertionError') or \
+            (rb[0] == 'err' and rb[1] == 'aliased')
+
+    @staticmethod
+    def _same_res(op, ra, rb) -> bool:
+        if ra == rb:
             return True
-        for a, b in zip(rr, mr):
-            if a == b:
-                continue
-            # an unknown message of the implementation: compare the exception class only
-            if a[0] == 'err' and b[0] == 'err' and str(a[1]).startswith('class:'):
-                if a[1][6:] == KIND_CLASS.get(b[1], 'TopologyError') or (a[1][6:] == 'Cyclic' and b[1] == 'cyclic'):
-                    continue
-            return True
-        return False
+        if ra[0] != 'err' or rb[0] != 'err':
+            return False
+        ca = ra[1][6:] if str(ra[1]).startswith('class:') else KIND_CLASS.get(ra[1], 'TopologyError')
+        ca = 'TopologyError' if ca == 'Cyclic' else ca
+        cb = KIND_CLASS.get(rb[1], 'TopologyError')
+        # both refuse: the property speaks of "the topology error", not of which of its messages - exception class
+        # only (which check fires first is incidental: a refused copy makes them lazily, the model up front; a
+        # refactoring may reorder them)
+        return ca == cb
 
     # ---- streams ------------------------------------------------------------------------------
     def _corpus(self):
         res = self._pool_map('fixed', CORPUS + [e['witness']['ops'] for e in fw._load_findings(self.ID)  # pylint: disable=protected-access
-                                                if isinstance(e.get('witness'), dict) and 'ops' in e['witness']])
+                                                if isinstance(e.get('witness'), dict) and 'ops' in e['witness']
+                                                and all(modelled(op) for op in e['witness']['ops'])])
         self._compare(res, 'seq', 'corpus')
 
     def _random(self):
@@ -686,12 +1340,22 @@ class C11(fw.Check):
         items = [(self.rng.getrandbits(48), self.rng.choice([8, 10, 12, 14, 16]), False, False) for _ in range(nseq)]
         self._compare(self._pool_map('seed', items), 'seq', 'random')
 
+    def _chains(self, scale=1):
+        nseq = self.n(300, 4000) * scale
+        items = [(chain_case(self.rng), self.rng.getrandbits(48), self.rng.choice([0, 2, 4, 6])) for _ in range(nseq)]
+        self._compare(self._pool_map('prefix', items), 'seq', 'chains of placeholders')
+
+    def _pipelines(self, scale=1):
+        nseq = self.n(300, 4000) * scale
+        items = [(pipeline_case(self.rng), self.rng.getrandbits(48), self.rng.choice([0, 0, 2, 4])) for _ in range(nseq)]
+        self._compare(self._pool_map('prefix', items), 'seq', 'pipelines / compositions')
+
     def _oracle_only(self):
-        """Segment.copy / Segment.extend (not modelled) and registration cycles among futures: oracle only."""
+        """out-of-shape indices, legacy forms and registration cycles among futures: oracle only."""
         nseq = self.n(300, 3000)
         items = [(self.rng.getrandbits(48), self.rng.choice([8, 12, 16]), True, True) for _ in range(nseq)]
         for ops, _, verdicts in self._pool_map('fixed', ORACLE_CORPUS) + self._pool_map('seed', items):
-            self._account(ops, verdicts, 'oracle-only(copy/extend/compose/reg-cycles)')
+            self._account(ops, verdicts, 'oracle-only(out-of-shape/legacy/reg-cycles)')
 
     def _exhaustive(self):
         universe = [['mkworker', True, 1, 1], ['mkworker', False, 1, 1], ['mkfuture', 1, 1], ['fork', 0]]
@@ -700,8 +1364,10 @@ class C11(fw.Check):
         alphabet = [['sub', s, 0, p, 0] for s in range(4) for p in range(4) if (s, p) != (2, 2)]
         alphabet += [['pub', 1, 0, 2, 0], ['pub', 2, 0, 3, 0], ['pub', 2, 0, 0, 0]]
         alphabet += [['train', 0, 1, 0, 1, 0], ['train', 0, 2, 0, 1, 0], ['train', 3, 1, 0, 2, 0], ['train', 0, 1, 0, 0, 0]]
-        probes = [['segment', 1, None], ['validate', 2, None]]
-        depth = self.n(2, 4)
+        alphabet += [['extend', 1, None, [3, None], None], ['extend', 2, None, [1, None], None]]
+        probes = [['segment', 1, None], ['validate', 2, None], ['copy', 2, None],
+                  ['compose', [[[1, None], [2, None], [3, None]]]]]
+        depth = 4 if not self.quick else 3 if self.escalation > 1 else 2  # (a depth, not a count: no scaling)
         items = []
         for k in range(1, depth + 1):
             for seq in itertools.product(alphabet, repeat=k):
@@ -772,35 +1438,109 @@ class C11(fw.Check):
     def correspondence(self):
         self._corpus()
         self._random()
+        self._chains()
+        self._pipelines()
         self._transparency()
         self._exhaustive()
         self._oracle_only()
 
     # ---- search / replay ------------------------------------------------------------------------
+    def _probe_alphabet(self, real: Real, dump):
+        """Every call worth making on the graph as it stands: all connections between existing ports through either
+        side of the port API, trainings, tracings, copies, compositions over every triple of heads."""
+        nodes = real.nodes
+        n = len(nodes)
+        out = []
+        for s in range(n):
+            for p in range(n):
+                for j in range(max(1, min(nodes[s].szin, 2))):
+                    for i in range(min(nodes[p].szout, 2)):
+                        out.append(['sub', s, j, p, i])
+                        out.append(['pub', p, i, s, j])
+        workers = [w[0] for w in dump[2]]
+        pubs = [p for p in range(n) if nodes[p].szout]
+        for w in workers:
+            for tp in pubs:
+                for lp in pubs[:3]:
+                    out.append(['train', w, tp, 0, lp, 0])
+        heads = [h for h in range(n) if nodes[h].szin <= 1]
+        for h in heads:
+            out += [['segment', h, None], ['validate', h, None], ['copy', h, None]]
+            for r in range(n):
+                out.append(['extend', h, None, [r, None], None])
+        for a in heads:
+            for t in heads:
+                out.append(['compose', [[[a, None], [t, None], [a, None]]]])
+        return out
+
+    def _continuations(self, prefix, depth2: int):
+        """the oracle on every one-call continuation of the prefix and on `depth2` random two/three-call ones"""
+        real = Real()
+        try:
+            for op in prefix:
+                real.call(op)
+            alphabet = self._probe_alphabet(real, real.dump())
+        finally:
+            real.close()
+        cap = self.n(300, 3000)
+        if len(alphabet) > cap:
+            # the calls naming a node of the last calls of the prefix first, a sample of the others
+            near = {x for op in prefix[-3:] for x in refs(op)}
+            local = [op for op in alphabet if near & set(refs(op))]
+            other = [op for op in alphabet if not near & set(refs(op))]
+            self.rng.shuffle(local)
+            self.rng.shuffle(other)
+            alphabet = (local + other)[:cap]
+        fresh = [['mkworker', False, 1, 1], ['mkworker', True, 1, 1], ['mkfuture', 1, 1]]
+        seqs = [prefix + [op] for op in alphabet]
+        for _ in range(depth2):
+            k = self.rng.choice([2, 2, 3])
+            tail = [self.rng.choice(alphabet) for _ in range(k)] if alphabet else []
+            if self.rng.random() < 0.3:
+                tail.insert(0, self.rng.choice(fresh))
+            seqs.append(prefix + tail)
+        found = 0
+        for ops, _, verdicts in self._pool_map('fixed', seqs):
+            for i, sig, what in verdicts:
+                self._report(ops, i, sig, what)
+                found += 1
+        return len(seqs), found
+
     def search(self, reason):
-        """Widen around the diverging sequences: random continuations of their prefixes, oracle on the real code."""
-        seeds = [d.case['ops'] for d in self.divergences if isinstance(d.case, dict) and 'ops' in d.case][:20]
+        """A proof obligation or the correspondence broke: look for a call sequence on which the oracle fails on the
+        real code.  (1) every diverging prefix (and its proper prefixes ending in a refused call): all one-call
+        continuations + random longer ones; (2) the chain and pipeline generators at four times their volume with
+        random continuations; (3) long random sequences.  Every witness is shrunk."""
+        if any(v.signature not in KNOWN_SIGS for v in self.violations):
+            self.notes.append(f'failing-input search ({reason}): not needed, the oracle already failed on '
+                              f'{len({v.signature for v in self.violations if v.signature not in KNOWN_SIGS})} kind(s) of '
+                              'generated sequences (shrunk)')
+            return
+        before = len(self.violations)
+        seeds, seen = [], set()
+        for d in self.divergences:
+            if isinstance(d.case, dict) and 'ops' in d.case and repr(d.case['ops']) not in seen:
+                seen.add(repr(d.case['ops']))
+                seeds.append(d.case['ops'])
         tried = 0
-        for ops in seeds:
-            for _ in range(40):
-                cut = self.rng.randrange(max(1, len(ops) - 3), len(ops) + 1)
-                real = Real()
-                try:
-                    before = real.dump()
-                    trace = []
-                    rng = random.Random(self.rng.getrandbits(48))
-                    for i in range(cut + 6):
-                        op = ops[i] if i < cut else gen_op(rng, real, before, None, False, True)
-                        res, cls = real.call(op)
-                        after = real.dump()
-                        trace.append(op)
-                        for sig, what in judge(op, res, cls, before, after):
-                            self.violate(what, {'ops': list(trace)}, sig)
-                        before = after
-                finally:
-                    real.close()
-                tried += 1
-        self.notes.append(f'failing-input search ({reason}): {tried} continuations of {len(seeds)} diverging prefixes')
+        seeds.sort(key=len)
+        for ops in seeds[:self.n(6, 24)]:
+            nseq, _ = self._continuations(ops, self.n(100, 1500))
+            tried += nseq
+            if len(ops) > 1:
+                nseq, _ = self._continuations(ops[:-1], self.n(50, 500))
+                tried += nseq
+            if len(self.violations) > before:
+                break
+        self.notes.append(f'failing-input search ({reason}): {tried} continuations of diverging prefixes')
+        if len(self.violations) == before or not seeds:
+            self._chains(scale=4)
+            self._pipelines(scale=4)
+            nseq = self.n(3000, 30000)
+            items = [(self.rng.getrandbits(48), self.rng.choice([16, 20, 24]), False, True) for _ in range(nseq)]
+            for ops, _, verdicts in self._pool_map('seed', items):
+                self._account(ops, verdicts, 'search: long random sequences')
+            self.notes.append(f'failing-input search ({reason}): widened chain / pipeline / random streams')
 
     def replay_finding(self, entry):
         w = entry['witness']
